@@ -1047,6 +1047,494 @@ example :
        .ask ['a']]).2 =
     [.inr none, .inl (.ok ()), .inr none, .inl (.ok ()), .inr (some "h/l".toList)] := by decide
 
+
+/-! ### discharging the name hypotheses from the shape of the object tree
+
+`contents` is a dict keyed by name (sibling names are distinct) and the builder only creates
+objects named by Python identifiers (no space, no line break, no dot).  From exactly that the two
+hypotheses of `roundtrip_exact` follow. -/
+
+def namesOf (ts : List Tree) : List Str := ts.map Tree.name
+
+mutual
+/-- every name is a plain identifier-like string and sibling names are pairwise distinct -/
+def WellNamed : Tree → Prop
+  | .node n _ _ cs => OkStr n ∧ '.' ∉ n ∧ WellNamedList cs ∧ (namesOf cs).Nodup
+def WellNamedList : List Tree → Prop
+  | [] => True
+  | t :: ts => WellNamed t ∧ WellNamedList ts
+end
+
+theorem WellNamedList_mem : ∀ (ts : List Tree), WellNamedList ts → ∀ t ∈ ts, WellNamed t
+  | [], _, _, h => by simp at h
+  | t :: ts, hw, t', h => by
+    simp only [WellNamedList] at hw
+    simp only [List.mem_cons] at h
+    rcases h with rfl | h
+    · exact hw.1
+    · exact WellNamedList_mem ts hw.2 t' h
+
+theorem WellNamed_name : (t : Tree) → WellNamed t → OkStr t.name ∧ '.' ∉ t.name
+  | .node n _ _ _, h => by simp only [WellNamed] at h; exact ⟨h.1, h.2.1⟩
+
+theorem fullNameOf_ok (parent : Option Str) (n : Str) (hp : ∀ p, parent = some p → OkStr p)
+    (hn : OkStr n) : OkStr (fullNameOf parent n) := by
+  cases parent with
+  | none => exact hn
+  | some p => exact OkStr_append.mpr ⟨hp p rfl, OkStr_cons.mpr ⟨by decide, hn⟩⟩
+
+mutual
+theorem visTree_full_ok (rn : List Str) (parent : Option Str) (hp : ∀ p, parent = some p → OkStr p) :
+    (t : Tree) → WellNamed t → ∀ o ∈ visTree rn parent t, OkStr o.full
+  | .node name kind hidden cs => by
+    intro hw o ho
+    simp only [WellNamed] at hw
+    cases hidden with
+    | true => simp [visTree] at ho
+    | false =>
+      have hF := fullNameOf_ok parent name hp hw.1
+      simp only [visTree, Bool.false_eq_true, if_false, List.mem_cons] at ho
+      rcases ho with rfl | ho
+      · exact hF
+      · exact visList_full_ok rn (some (fullNameOf parent name))
+          (fun p h => by simp only [Option.some.injEq] at h; subst h; exact hF) cs hw.2.2.1 o ho
+theorem visList_full_ok (rn : List Str) (parent : Option Str) (hp : ∀ p, parent = some p → OkStr p) :
+    (ts : List Tree) → WellNamedList ts → ∀ o ∈ visList rn parent ts, OkStr o.full
+  | [] => by simp [visList]
+  | t :: ts => by
+    intro hw o ho
+    simp only [WellNamedList] at hw
+    simp only [visList, List.mem_append] at ho
+    rcases ho with ho | ho
+    · exact visTree_full_ok rn parent hp t hw.1 o ho
+    · exact visList_full_ok rn parent hp ts hw.2 o ho
+end
+
+/-- `s` is `F` or `F` followed by a dotted path -/
+def Under (F s : Str) : Prop := ∃ x, (x = [] ∨ ∃ r, x = '.' :: r) ∧ s = F ++ x
+
+mutual
+theorem visTree_under (rn : List Str) (parent : Option Str) :
+    (t : Tree) → ∀ o ∈ visTree rn parent t, Under (fullNameOf parent t.name) o.full
+  | .node name kind hidden cs => by
+    intro o ho
+    cases hidden with
+    | true => simp [visTree] at ho
+    | false =>
+      simp only [visTree, Bool.false_eq_true, if_false, List.mem_cons] at ho
+      rcases ho with rfl | ho
+      · exact ⟨[], Or.inl rfl, by simp [Tree.name]⟩
+      · obtain ⟨t, -, x, hx, hs⟩ := visList_under rn (some (fullNameOf parent name)) cs o ho
+        refine ⟨'.' :: (t.name ++ x), Or.inr ⟨_, rfl⟩, ?_⟩
+        rw [hs]; simp [fullNameOf, Tree.name]
+theorem visList_under (rn : List Str) (parent : Option Str) :
+    (ts : List Tree) → ∀ o ∈ visList rn parent ts, ∃ t ∈ ts, Under (fullNameOf parent t.name) o.full
+  | [] => by simp [visList]
+  | t :: ts => by
+    intro o ho
+    simp only [visList, List.mem_append] at ho
+    rcases ho with ho | ho
+    · exact ⟨t, by simp, visTree_under rn parent t o ho⟩
+    · obtain ⟨t', ht', hu⟩ := visList_under rn parent ts o ho
+      exact ⟨t', by simp [ht'], hu⟩
+end
+
+/-- two dot-free names followed by nothing or by a dotted path are equal as strings only if the
+names are equal -/
+theorem sep_inj : ∀ (a b x y : Str), '.' ∉ a → '.' ∉ b → (x = [] ∨ ∃ r, x = '.' :: r) →
+    (y = [] ∨ ∃ r, y = '.' :: r) → a ++ x = b ++ y → a = b
+  | [], [], _, _, _, _, _, _, _ => rfl
+  | [], d :: b, x, y, _, hb, hx, _, h => by
+    exfalso
+    simp only [List.nil_append, List.cons_append] at h
+    rcases hx with rfl | ⟨r, rfl⟩
+    · cases h
+    · simp only [List.cons.injEq] at h
+      exact hb (by simp [← h.1])
+  | c :: a, [], x, y, ha, _, _, hy, h => by
+    exfalso
+    simp only [List.nil_append, List.cons_append] at h
+    rcases hy with rfl | ⟨r, rfl⟩
+    · cases h
+    · simp only [List.cons.injEq] at h
+      exact ha (by simp [h.1])
+  | c :: a, d :: b, x, y, ha, hb, hx, hy, h => by
+    simp only [List.cons_append, List.cons.injEq] at h
+    simp only [List.mem_cons, not_or] at ha hb
+    rw [h.1, sep_inj a b x y ha.2 hb.2 hx hy h.2]
+
+/-- `fullNameOf parent n = prefix ++ n` with the same prefix for all siblings -/
+theorem fullNameOf_prefix (parent : Option Str) : ∃ pre : Str, ∀ n, fullNameOf parent n = pre ++ n := by
+  cases parent with
+  | none => exact ⟨[], fun n => rfl⟩
+  | some p => exact ⟨p ++ ['.'], fun n => by simp [fullNameOf]⟩
+
+theorem under_distinct (parent : Option Str) (n n' s : Str) (hn : '.' ∉ n) (hn' : '.' ∉ n')
+    (hne : n ≠ n') (h1 : Under (fullNameOf parent n) s) (h2 : Under (fullNameOf parent n') s) : False := by
+  obtain ⟨pre, hpre⟩ := fullNameOf_prefix parent
+  obtain ⟨x, hx, hs⟩ := h1
+  obtain ⟨y, hy, hs'⟩ := h2
+  rw [hpre] at hs hs'
+  rw [hs, List.append_assoc, List.append_assoc] at hs'
+  exact hne (sep_inj n n' x y hn hn' hx hy (List.append_cancel_left hs'))
+
+mutual
+theorem visTree_nodup (rn : List Str) (parent : Option Str) :
+    (t : Tree) → WellNamed t → ((visTree rn parent t).map (·.full)).Nodup
+  | .node name kind hidden cs => by
+    intro hw
+    simp only [WellNamed] at hw
+    cases hidden with
+    | true => simp [visTree]
+    | false =>
+      simp only [visTree, Bool.false_eq_true, if_false, List.map_cons, List.nodup_cons]
+      refine ⟨?_, visList_nodup rn _ cs hw.2.2.1 hw.2.2.2⟩
+      intro hmem
+      obtain ⟨o, ho, hfull⟩ := List.mem_map.mp hmem
+      obtain ⟨t, -, x, -, hs⟩ := visList_under rn (some (fullNameOf parent name)) cs o ho
+      have hlen := congrArg List.length (hfull.symm.trans hs)
+      simp [fullNameOf] at hlen
+theorem visList_nodup (rn : List Str) (parent : Option Str) :
+    (ts : List Tree) → WellNamedList ts → (namesOf ts).Nodup → ((visList rn parent ts).map (·.full)).Nodup
+  | [] => by simp [visList]
+  | t :: ts => by
+    intro hw hn
+    simp only [WellNamedList] at hw
+    simp only [namesOf, List.map_cons, List.nodup_cons] at hn
+    simp only [visList, List.map_append, List.nodup_append]
+    refine ⟨visTree_nodup rn parent t hw.1, visList_nodup rn parent ts hw.2 hn.2, ?_⟩
+    intro a ha b hb hab
+    subst hab
+    obtain ⟨o1, ho1, h1⟩ := List.mem_map.mp ha
+    obtain ⟨o2, ho2, h2⟩ := List.mem_map.mp hb
+    have u1 := visTree_under rn parent t o1 ho1
+    obtain ⟨t', ht', u2⟩ := visList_under rn parent ts o2 ho2
+    rw [h1] at u1; rw [h2] at u2
+    have hne : t.name ≠ t'.name := fun hc => hn.1 (List.mem_map.mpr ⟨t', ht', hc.symm⟩)
+    exact under_distinct parent t.name t'.name a (WellNamed_name t hw.1).2
+      (WellNamed_name t' (WellNamedList_mem ts hw.2 t' ht')).2 hne u1 u2
+end
+
+/-- **roundtrip_wellNamed**: the round trip with its hypotheses discharged from the shape of the
+tree — names without space/line break/dot, sibling names distinct, visible roots are page objects:
+the writer succeeds and the reader returns exactly the visible reachable objects, each once, in
+document order, name ↦ (base, url), and every one of them resolves through `getLink`. -/
+theorem roundtrip_wellNamed (roots : List Tree) (base : Str) (hroots : rootsOk roots)
+    (hw : WellNamedList roots) (hn : (namesOf roots).Nodup) :
+    (∃ content, generateContent roots = .ok content ∧
+      parseInventory pyInt base content = ([], .ok ((visibleObjects roots).map (entryOf base)))) ∧
+    (∀ o ∈ visibleObjects roots,
+      getLink ((visibleObjects roots).map (entryOf base)) o.full = some (base ++ '/' :: o.url)) := by
+  have hnames : ∀ o ∈ visibleObjects roots, OkStr o.full :=
+    visList_full_ok _ none (fun p h => by cases h) roots hw
+  have hdistinct : ((visibleObjects roots).map (·.full)).Nodup := visList_nodup _ none roots hw hn
+  exact ⟨roundtrip_exact roots base hroots hnames hdistinct, (getLink_roundtrip roots base hdistinct).1⟩
+
+example : rootsOk exForest ∧ WellNamedList exForest ∧ (namesOf exForest).Nodup := by
+  refine ⟨by simp [rootsOk, exForest, Kind.ownPage], ?_, by decide⟩
+  simp only [exForest, WellNamedList, WellNamed, namesOf, List.map_cons, List.map_nil, Tree.name, and_true]
+  decide
+
+/-! ## the cache in front of the reader: `parseMaxAge`, `prepareCache`, `IntersphinxCache.get`, fetch loop -/
+
+/-- `parseMaxAge` with its try/except blocks resolved -/
+theorem parseMaxAge_eq (toInt : Str → Option Int) (s : Str) :
+    parseMaxAge toInt s =
+      match toInt s.dropLast, s.getLast? with
+      | none, _ => .raised .invalidMaxAge
+      | some _, none => .raised .invalidMaxAge
+      | some v, some c =>
+        match maxAgeUnit c with
+        | none => .raised .invalidMaxAge
+        | some (name, lo, hi) => if lo ≤ v ∧ v < hi then .ok (name, v) else .raised .invalidMaxAge := by
+  unfold parseMaxAge
+  cases h1 : toInt s.dropLast with
+  | none => simp [tryExcept]
+  | some v =>
+    cases h2 : s.getLast? with
+    | none => simp [tryExcept]
+    | some c =>
+      cases h3 : maxAgeUnit c with
+      | none => simp [tryExcept, h3]
+      | some u =>
+        obtain ⟨name, lo, hi⟩ := u
+        by_cases hr : lo ≤ v ∧ v < hi
+        · simp [tryExcept, h3, hr]
+        · simp [tryExcept, h3, hr]
+
+/-- **parseMaxAge_raises_only_invalid**: for every string (and every `int` behaviour) `parseMaxAge`
+returns or raises `InvalidMaxAge`; the `ValueError` of `int`, the `IndexError` of `maxAge[-1]` on the
+empty string and the `KeyError` of the unit table never escape. -/
+theorem parseMaxAge_raises_only_invalid (toInt : Str → Option Int) (s : Str) :
+    (∃ r, parseMaxAge toInt s = .ok r) ∨ parseMaxAge toInt s = .raised .invalidMaxAge := by
+  rw [parseMaxAge_eq]
+  cases toInt s.dropLast with
+  | none => exact Or.inr rfl
+  | some v =>
+    cases s.getLast? with
+    | none => exact Or.inr rfl
+    | some c =>
+      simp only []
+      cases maxAgeUnit c with
+      | none => exact Or.inr rfl
+      | some u =>
+        obtain ⟨name, lo, hi⟩ := u
+        simp only []
+        split
+        · exact Or.inl ⟨_, rfl⟩
+        · exact Or.inr rfl
+
+/-- **parseMaxAge_ok_iff**: it accepts exactly `<int><unit>` with the amount inside the unit's range -/
+theorem parseMaxAge_ok_iff (toInt : Str → Option Int) (s u : Str) (n : Int) :
+    parseMaxAge toInt s = .ok (u, n) ↔
+      ∃ c lo hi, s.getLast? = some c ∧ maxAgeUnit c = some (u, lo, hi) ∧
+        toInt s.dropLast = some n ∧ lo ≤ n ∧ n < hi := by
+  rw [parseMaxAge_eq]
+  cases h1 : toInt s.dropLast with
+  | none => simp
+  | some v =>
+    cases h2 : s.getLast? with
+    | none => simp
+    | some c =>
+      simp only []
+      cases h3 : maxAgeUnit c with
+      | none => simp [h3]
+      | some unit =>
+        obtain ⟨name, lo, hi⟩ := unit
+        simp only []
+        constructor
+        · intro h
+          split at h
+          · rename_i hr
+            simp only [Outcome.ok.injEq, Prod.mk.injEq] at h
+            obtain ⟨rfl, rfl⟩ := h
+            exact ⟨c, lo, hi, rfl, h3, rfl, hr.1, hr.2⟩
+          · cases h
+        · rintro ⟨c', lo', hi', hc, hu, hn, h4, h5⟩
+          simp only [Option.some.injEq] at hc hn
+          subst hc; subst hn
+          rw [h3] at hu
+          simp only [Option.some.injEq, Prod.mk.injEq] at hu
+          obtain ⟨rfl, rfl, rfl⟩ := hu
+          simp [h4, h5]
+
+example : parseMaxAge pyInt "1w".toList = .ok ("weeks".toList, 1) := by decide
+example : parseMaxAge pyInt "4294967294s".toList = .ok ("seconds".toList, 4294967294) := by decide
+example : parseMaxAge pyInt "4294967295s".toList = .raised .invalidMaxAge := by decide
+example : parseMaxAge pyInt "0d".toList = .raised .invalidMaxAge := by decide
+example : parseMaxAge pyInt "142857141w".toList = .ok ("weeks".toList, 142857141) := by decide
+example : parseMaxAge pyInt "142857142w".toList = .raised .invalidMaxAge := by decide
+example : parseMaxAge pyInt [] = .raised .invalidMaxAge ∧ parseMaxAge pyInt ['w'] = .raised .invalidMaxAge ∧
+    parseMaxAge pyInt "5x".toList = .raised .invalidMaxAge := by decide
+
+/-- `prepareCache`, the full statement "returns a cache for every option combination and file
+system state" is FALSE of the code: with `--clear-intersphinx-cache` and a cache directory that does
+not exist `shutil.rmtree` raises and nothing catches it (`prepareCache_counterexample`).  Exact
+description of when it raises: -/
+theorem prepareCache_raises_iff (toInt : Str → Option Int) (clear enable rmOk : Bool) (maxAge : Str) :
+    (∃ e, prepareCache toInt clear enable rmOk maxAge = .raised e) ↔
+      (clear = true ∧ rmOk = false) ∨ (enable = true ∧ ∃ e, parseMaxAge toInt maxAge = .raised e) := by
+  unfold prepareCache
+  cases clear <;> cases rmOk <;> cases enable <;> simp <;>
+    (cases parseMaxAge toInt maxAge <;> simp)
+
+/-- under the decidable exclusion (the directory can be removed or is not asked to be, and the
+max-age option is well-formed when the cache is enabled) `prepareCache` returns -/
+theorem prepareCache_total_partial (toInt : Str → Option Int) (clear enable rmOk : Bool) (maxAge : Str)
+    (h1 : clear = false ∨ rmOk = true)
+    (h2 : enable = false ∨ ∃ r, parseMaxAge toInt maxAge = .ok r) :
+    ∃ c, prepareCache toInt clear enable rmOk maxAge = .ok c := by
+  cases hp : prepareCache toInt clear enable rmOk maxAge with
+  | ok c => exact ⟨c, rfl⟩
+  | raised e =>
+    exfalso
+    rcases (prepareCache_raises_iff toInt clear enable rmOk maxAge).mp ⟨e, hp⟩ with ⟨hc, hr⟩ | ⟨he, e', hm⟩
+    · rcases h1 with h | h
+      · rw [h] at hc; cases hc
+      · rw [h] at hr; cases hr
+    · rcases h2 with h | ⟨r, h⟩
+      · rw [h] at he; cases he
+      · rw [h] at hm; cases hm
+
+example : (true = false ∨ true = true) ∧ (true = false ∨ ∃ r, parseMaxAge pyInt "1w".toList = .ok r) :=
+  ⟨Or.inr rfl, Or.inr ⟨("weeks".toList, 1), by decide⟩⟩
+
+/-- clearing a cache directory that does not exist aborts (OSError/FileNotFoundError reaches `main`) -/
+theorem prepareCache_counterexample :
+    prepareCache pyInt true true false "1w".toList = .raised .osError := by decide
+
+/-- **fetch_total**: whatever each download does — body, or any `Exception` — and whatever the bytes
+are, `fetchIntersphinxInventories` returns (only a `BaseException` such as KeyboardInterrupt passes
+through `IntersphinxCache.get`). -/
+theorem fetch_total (toInt : Str → Option Int) : ∀ (fs : List Fetch) (st : State),
+    (∀ f ∈ fs, f.session ≠ .baseException) → (fetchAll toInt st fs).2 = .ok ()
+  | [], _, _ => rfl
+  | f :: fs, st, h => by
+    have hf : f.session ≠ .baseException := h f (by simp)
+    have hrest := fun st' => fetch_total toInt fs st' (fun x hx => h x (by simp [hx]))
+    have hu : ∀ data, (update f.unzip f.decode toInt st f.url data).2 = .ok () :=
+      fun data => update_total f.unzip f.decode toInt st f.url data
+    unfold fetchAll
+    cases hs : f.session with
+    | baseException => exact absurd hs hf
+    | exception =>
+      simp only [cacheGet]
+      cases hup : update f.unzip f.decode toInt st f.url none with
+      | mk st' r =>
+        have := hu none; rw [hup] at this; simp only at this; subst this
+        exact hrest st'
+    | content b =>
+      simp only [cacheGet]
+      cases hup : update f.unzip f.decode toInt st f.url (some b) with
+      | mk st' r =>
+        have := hu (some b); rw [hup] at this; simp only at this; subst this
+        exact hrest st'
+
+/-- a download that fails is reported once and changes nothing else -/
+theorem failed_download_reported (unzip : Bytes → Option Bytes) (decode : Bytes → Option Str)
+    (toInt : Str → Option Int) (st : State) (url base : Str) (hb : rsplitSlash url = some base) :
+    update unzip decode toInt st url none = ({ st with log := st.log ++ [.noData url] }, .ok ()) := by
+  simp [update, hb]
+
+/-! ## from `_links` to the page: `getLink` and the linker's lookup order -/
+
+/-- **getLink_spec**: every answer is `base + '/' + location` of the entry stored under exactly that
+name, `$` replaced by the name; an entry with an empty location, or no entry, gives None -/
+theorem getLink_spec (links : Dict) (name u : Str) :
+    getLink links name = some u ↔
+      ∃ base rel, links.get name = some (base, rel) ∧ rel ≠ [] ∧
+        u = base ++ '/' :: (if rel.getLast? = some '$' then rel.dropLast ++ name else rel) := by
+  unfold getLink
+  cases h : links.get name with
+  | none => simp
+  | some v =>
+    obtain ⟨base, rel⟩ := v
+    by_cases hr : rel = []
+    · simp [hr]
+    · simp only [hr, if_false, Option.some.injEq, Prod.mk.injEq, ne_eq]
+      constructor
+      · intro hu; exact ⟨base, rel, ⟨rfl, rfl⟩, hr, hu.symm⟩
+      · rintro ⟨b, r, ⟨rfl, rfl⟩, -, hu⟩; exact hu.symm
+
+/-- an answer is never the empty string, so Python's `if not target_url` only tests for None -/
+theorem getLink_truthy (links : Dict) (name : Str) : truthy (getLink links name) = (getLink links name).isSome := by
+  cases h : getLink links name with
+  | none => rfl
+  | some u =>
+    obtain ⟨base, rel, -, -, hu⟩ := (getLink_spec links name u).mp h
+    subst hu
+    simp [truthy]
+
+/-- **xref_internal_first**: a name that is the full name of an object of this system links to that
+object; no inventory entry can redirect it -/
+theorem xref_internal_first (objFor : Str → Option Str) (expand : Str → Str) (links : Dict)
+    (context : Option Str) (identifier o : Str) (h : objFor identifier = some o) :
+    resolveXref objFor expand links context identifier = .internal o := by
+  simp [resolveXref, h]
+
+/-- **xref_external_order**: otherwise the inventory is asked for the expanded name first, then for
+the name as written, and only then the context search decides -/
+theorem xref_external_order (objFor : Str → Option Str) (expand : Str → Str) (links : Dict)
+    (context : Option Str) (identifier : Str) (h : objFor identifier = none) :
+    resolveXref objFor expand links context identifier =
+      match getLink links (expand identifier), getLink links identifier, context with
+      | some u, _, _ => .external u
+      | none, some u, _ => .external u
+      | none, none, some o => .internal o
+      | none, none, none => .unresolved := by
+  unfold resolveXref
+  simp only [h]
+  cases h1 : getLink links (expand identifier) with
+  | some u =>
+    have ht : truthy (some u) = true := by
+      have := getLink_truthy links (expand identifier); rw [h1] at this; simpa using this
+    simp [ht]
+  | none =>
+    cases h2 : getLink links identifier with
+    | some u =>
+      have ht : truthy (some u) = true := by
+        have := getLink_truthy links identifier; rw [h2] at this; simpa using this
+      have hn : truthy (none : Option Str) = false := rfl
+      simp [hn, ht]
+    | none => cases context <;> simp [truthy]
+
+/-- every external link the linker produces is an answer of `getLink` (so, by `getLink_spec`, the
+base URL and location of a line of a loaded inventory) -/
+theorem xref_external_is_getLink (objFor : Str → Option Str) (expand : Str → Str) (links : Dict)
+    (context : Option Str) (identifier u : Str)
+    (h : resolveXref objFor expand links context identifier = .external u) :
+    getLink links (expand identifier) = some u ∨ getLink links identifier = some u := by
+  cases ho : objFor identifier with
+  | some o => rw [xref_internal_first objFor expand links context identifier o ho] at h; cases h
+  | none =>
+    rw [xref_external_order objFor expand links context identifier ho] at h
+    cases h1 : getLink links (expand identifier) with
+    | some u1 => rw [h1] at h; simp only [XrefTarget.external.injEq] at h; exact Or.inl (by rw [h])
+    | none =>
+      rw [h1] at h
+      cases h2 : getLink links identifier with
+      | some u2 => rw [h2] at h; simp only [XrefTarget.external.injEq] at h; exact Or.inr (by rw [h])
+      | none => rw [h2] at h; cases context <;> simp at h
+
+theorem linkTo_order (resolved : Option Str) (expand : Str → Str) (links : Dict) (identifier : Str) :
+    linkTo resolved expand links identifier =
+      match resolved, getLink links (expand identifier) with
+      | some o, _ => .internal o
+      | none, some u => .external u
+      | none, none => .unresolved := by
+  unfold linkTo
+  cases resolved <;> simp
+  cases getLink links (expand identifier) <;> simp
+
+/-- **xref_roundtrip**: end to end — a project documented by pydoctor, its `objects.inv` loaded into
+another project's reader: a reference whose expanded name is one of its visible objects (and is not
+an object of the referring system) becomes a link to `base/` + the page and anchor where that
+object is documented. -/
+theorem xref_roundtrip (roots : List Tree) (base : Str)
+    (hdistinct : ((visibleObjects roots).map (·.full)).Nodup)
+    (objFor : Str → Option Str) (expand : Str → Str) (context : Option Str) (identifier : Str)
+    (hnot : objFor identifier = none) (o : Obj) (ho : o ∈ visibleObjects roots)
+    (hexp : expand identifier = o.full) :
+    resolveXref objFor expand ((visibleObjects roots).map (entryOf base)) context identifier =
+      .external (base ++ '/' :: o.url) := by
+  rw [xref_external_order objFor expand _ context identifier hnot, hexp,
+    (getLink_roundtrip roots base hdistinct).1 o ho]
+
+example : resolveXref (fun _ => none) (fun _ => "pk.m.C.f".toList)
+    ((visibleObjects exForest).map (entryOf "http://h".toList)) none ['f'] =
+    .external "http://h/pk.m.C.html#f".toList := by decide
+
+/-! ## which role each `DocumentableKind` is written with -/
+
+theorem DocKind.all_complete (k : DocKind) : k ∈ DocKind.all := by cases k <;> decide
+
+/-- the table, kind by kind -/
+theorem role_table :
+    DocKind.all.map (fun k => String.ofList k.role) =
+      ["py:module", "py:module", "py:class", "py:class", "py:class", "py:method", "py:method", "py:method",
+       "py:function", "py:attribute", "py:attribute", "py:attribute", "py:attribute", "py:attribute",
+       "py:attribute", "py:attribute", "py:attribute", "py:attribute"] := by decide
+
+/-- the object types of Sphinx's Python domain (sphinx.domains.python.PythonDomain.object_types) -/
+def sphinxPyObjectTypes : List String :=
+  ["function", "data", "class", "exception", "method", "classmethod", "staticmethod", "attribute",
+   "property", "type", "module"]
+
+/-- every kind of documented object is written with a type Sphinx's Python domain knows -/
+theorem role_is_sphinx_type (k : DocKind) : String.ofList k.cls.domain ∈ sphinxPyObjectTypes := by
+  cases k <;> decide
+
+/-- `obj` (the "Unknown type" branch) is never used for a DocumentableKind -/
+theorem role_never_obj (k : DocKind) : k.cls ≠ .other := by cases k <;> decide
+
+/-- **written_lines**: the file has exactly one line per visible reachable object, in document order -/
+theorem written_lines (roots : List Tree) (hroots : rootsOk roots)
+    (hnames : ∀ o ∈ visibleObjects roots, OkStr o.full) :
+    ∃ content, generateContent roots = .ok content ∧
+      splitlines content = (visibleObjects roots).map fun o => lineText o.full o.kind o.url :=
+  ⟨render (visibleObjects roots), genList_roots _ roots hroots,
+   splitlines_render _ (fun o ho => ⟨hnames o ho, visList_url_ok _ none roots o ho⟩)⟩
+
 /-! ## the whole file: `update` on the bytes `generate` wrote -/
 
 theorem splitFirstNL_append : ∀ (f r : Bytes), 10 ∉ f → splitFirstNL (f ++ 10 :: r) = some (f, r)
